@@ -145,5 +145,28 @@ Fixpoint leaf_ok (l : leaf) : bool :=
   | _ => scalar_ok l
   end.
 
+(* same Go type: same kind and width at the end of pointer chains of equal depth *)
+Fixpoint same_shape (a b : leaf) : bool :=
+  match a, b with
+  | LStr _, LStr _ | LBool _, LBool _ | LBytes _, LBytes _ => true
+  | LInt w _, LInt w' _ | LUint w _, LUint w' _ => width_eqb w w'
+  | LPtr x, LPtr y => same_shape x y
+  | _, _ => false
+  end.
+
+(* "value v, handed to Marshal, and destination d, handed to Unmarshal, have the same Go type;
+   r is what the destination must hold afterwards" *)
+Inductive plain_pair : psrc -> pdst -> option leaf -> Prop :=
+| pp_nil : plain_pair PNil DNil None
+| pp_str p s : plain_pair (PStr p s) DStr (Some (LStr s))
+| pp_bytes p b : plain_pair (PBytes p b) DBytes (Some (LBytes b))
+| pp_slice p b old : length old = length b -> plain_pair (PBytes p b) (DSlice old) (Some (LBytes b))
+| pp_refl_val l d :     (* Marshal(v), Unmarshal(data, &d) *)
+    leaf_ok l = true -> same_shape l d = true ->
+    plain_pair (PRefl l) (DRefl (LPtr d)) (Some (LPtr l))
+| pp_refl_ptr l d :     (* Marshal(&v), Unmarshal(data, &d) *)
+    leaf_ok l = true -> same_shape l d = true ->
+    plain_pair (PRefl (LPtr l)) (DRefl (LPtr d)) (Some (LPtr l)).
+
 Definition dst_nonnil (d : pdst) : bool :=
   match d with DStrNil | DBytesNil => false | _ => true end.
